@@ -37,6 +37,14 @@ func (d Decision) String() string {
 	}
 }
 
+// PathVector is a concrete input assignment taken from the model of a completed path.
+type PathVector struct {
+	Inputs map[string]uint64            `json:"inputs"`
+	UF     map[string]map[string]uint64 `json:"uf"`
+	Obs    []string                     `json:"obs,omitempty"`
+	Viol   bool                         `json:"violated"`
+}
+
 type workItem struct {
 	prefix []Decision
 	model  *Model
@@ -100,6 +108,8 @@ type Explorer struct {
 	Samples  []string
 	Oblig    string
 	MapOrderNondet bool
+	PathVectors []PathVector // input vectors of completed paths (for translator validation)
+	MaxVectors  int
 	Params   map[string]int
 
 	work []workItem
@@ -637,6 +647,10 @@ func (ex *Explorer) runOne(run func()) {
 		ex.Stats.PathsOK++
 		if ex.pos < len(ex.prefix) {
 			ex.inconclusive("re-execution ended before consuming its decision prefix (nondeterminism)")
+		}
+		if ex.concrete == nil && len(ex.PathVectors) < ex.MaxVectors {
+			in, uf := ex.snapshotInputs(ex.model)
+			ex.PathVectors = append(ex.PathVectors, PathVector{Inputs: in, UF: uf})
 		}
 	case "infeasible":
 		ex.Stats.PathsInfeas++
